@@ -27,7 +27,7 @@ func checkC14(c *chk.Ctx) {
 		"R14a a shadow (ownership) entry is only written after the session's key was found in the same batch; a missing session yields SESSION_DOES_NOT_EXIST",
 		"R14b every mutation kind (put, delete, delete with entry, range delete) removes the previous owner's shadow; the wrapper callback chains session then index handling for all four kinds; the apply functions invoke the callback before mutating the record",
 		"R14c session cleanup is one write request carrying the owned keys, the session key and the shadow range (open finding F17: the owned keys are listed outside the batch and deleted unconditionally)",
-		"R14d session timers follow leadership: initialised before LEADER, closed on NewTerm/close; the heartbeat re-arms the timer with the session's own timeout",
+		"R14d session timers follow leadership: initialised before LEADER from a DB that already holds the replayed log tail, closed on NewTerm/close; the heartbeat re-arms the timer with the session's own timeout",
 		"R14e a range delete runs the ownership callback for every key it removes (shared with C12)",
 	}
 	c.NotDec = []string{
@@ -351,7 +351,7 @@ func dependsOnRangeOver(v ssa.Value, calls []ssa.CallInstruction) bool {
 
 func ruleR14d(h *H) {
 	const rule = "R14d"
-	h.Rule(rule, "K1", "BecomeLeader initialises the session manager before setting LEADER; NewTerm and the controller's close path close it; the heartbeat re-arms the expiry timer with the session's timeout", 4)
+	h.Rule(rule, "K1", "BecomeLeader initialises the session manager before setting LEADER and after the replay of the log tail; NewTerm and the controller's close path close it; the heartbeat re-arms the expiry timer with the session's timeout", 4)
 	lt := h.implType(rule, "server", "LeaderController")
 	if lt == nil {
 		return
@@ -379,6 +379,50 @@ func ruleR14d(h *H) {
 			}
 			h.Verdict(ok, rule, fmt.Sprintf("sessions initialised before LEADER #%d", i+1), h.pos(w.Instr), "SessionManager.Initialize succeeded first", "the node starts serving as leader without re-arming the sessions stored in the DB: their ephemeral records never expire. "+why)
 		}
+	}
+	// the sessions are read from the DB: the DB must hold everything committed so far,
+	// i.e. the replay of the log tail precedes Initialize
+	replays := func(ci ssa.CallInstruction) bool {
+		return h.P.CallStaticallyReaches(ci, h.P.MatchPred(dbProcessWrite))
+	}
+	var afterReplay func(fn *ssa.Function, at ssa.Instruction, depth int) (bool, string)
+	afterReplay = func(fn *ssa.Function, at ssa.Instruction, depth int) (bool, string) {
+		found := false
+		ir.Instrs(fn, func(in ssa.Instruction) {
+			if ci, ok := in.(ssa.CallInstruction); ok && in != at && replays(ci) && ir.Dominates(in, at) {
+				found = true
+			}
+		})
+		if found {
+			return true, ""
+		}
+		if depth >= 3 {
+			return false, "no replay of the log tail found before it"
+		}
+		sites := 0
+		for _, e := range h.P.CallersOf(fn) {
+			if e.Site == nil || e.Caller == nil || e.Caller.Func == nil || !ir.InRepo(e.Caller.Func) || ir.RelPkg(ir.PkgPathOf(e.Caller.Func)) != "server" {
+				continue
+			}
+			sites++
+			if ok, w := afterReplay(e.Caller.Func, e.Site, depth+1); !ok {
+				return false, w
+			}
+		}
+		if sites == 0 {
+			return false, "in " + ir.FuncName(fn) + " no call that replays the committed log tail into the DB (reaches DB.ProcessWrite) precedes it"
+		}
+		return true, ""
+	}
+	ni := 0
+	for _, s := range h.P.AllCalls(ir.InPkg("server"), smInitialize) {
+		ni++
+		ok, why := afterReplay(s.Fn, s.Call, 0)
+		h.Verdict(ok, rule, fmt.Sprintf("sessions initialised from a replayed DB #%d", ni), h.pos(s.Call), "the replay of the log tail dominates SessionManager.Initialize",
+			"SessionManager.Initialize reads the sessions from a DB that has not been brought up to the log head yet: a session whose creation is still in the unapplied tail is never registered on the new leader (KeepAlive fails, its ephemeral records never expire). "+why)
+	}
+	if ni == 0 {
+		h.Anchor(rule, "call of SessionManager.Initialize")
 	}
 	for _, m := range []string{"NewTerm", "Close"} {
 		fn := h.implMethod(rule, "server", "LeaderController", m)
